@@ -2,7 +2,7 @@
    Only statements; proofs by reference (proofs/RotateProofs.v).  Model: model/Rotate.v
    (ctrl/qryn/maintenance/rotate.go: Rotate, rotateTables, storagePolicyUpdate, forgetSetting, get/putSetting). *)
 From Coq Require Import List ZArith Bool String.
-From Qryn Require Import model.Rotate model.RotateCfg model.RotateConc model.RotateClock model.RotateStamp proofs.RotateProofs proofs.RotateCfgProofs proofs.RotateManyProofs proofs.RotateConcProofs proofs.RotateClockProofs proofs.RotateStampProofs.
+From Qryn Require Import model.Rotate model.RotateCfg model.RotateConc model.RotateClock model.RotateStamp proofs.RotateProofs proofs.RotateCfgProofs proofs.RotateManyProofs proofs.RotateConcProofs proofs.RotateConcFaultProofs proofs.RotateClockProofs proofs.RotateStampProofs.
 Import ListNotations.
 Open Scope string_scope.
 Open Scope list_scope.
@@ -376,3 +376,24 @@ Proof.
   exact (init_db_consistent parse e ifails os f ds).
 Qed.
 Print Assumptions initialisation_skipped_or_refused.
+
+(* ------------------------------------------------------------------ connection faults inside concurrent runs
+   model/RotateConc.v (last part): a statement of an instance may fail, having taken effect or not; the instance's
+   Rotate returns the error and issues nothing more. *)
+
+(* What a faulty schedule does to the database and the instances is what the fault-free schedule `effective` does in
+   which the failing instances simply stop: a fault without effect is no statement, a fault with effect a statement. *)
+Theorem concurrent_faults_are_crashes : forall evs s,
+  f_sys (fsched_run evs s) = sched_run (effective evs s) (f_sys s).
+Proof. exact faults_are_crashes. Qed.
+Print Assumptions concurrent_faults_are_crashes.
+
+(* Hence for any number of instances with the same configuration, any interleaving, any statements failing: records
+   name only applied values at every point; if all instances got to their end the database is converged; and whatever
+   happened, one uninterrupted run afterwards (any configuration) completes the work. *)
+Theorem concurrent_instances_with_faults : forall cfg n evs d cfg', (0 < n)%nat -> consistent d ->
+  let s := f_sys (fsched_run evs (finit d (repeat cfg n))) in
+  consistent (s_db s) /\ (all_done s = true -> converged cfg (s_db s)) /\
+  snd (run cfg' None (s_db s)) = true /\ converged cfg' (run_db cfg' None (s_db s)).
+Proof. exact conc_faults_same_config. Qed.
+Print Assumptions concurrent_instances_with_faults.
